@@ -148,6 +148,8 @@ impl Encode for VarInt {
 
 /// Encoding and decoding varint-prefixed payloads.
 pub mod payload {
+    use std::io::Read as _;
+
     use super::*;
 
     /// Encode varint-prefixed data payload.
@@ -168,9 +170,14 @@ pub mod payload {
     /// Decode varint-prefixed data payload.
     pub fn decode<R: io::Read + ?Sized>(reader: &mut R) -> Result<Vec<u8>, wire::Error> {
         let size = VarInt::decode(reader)?;
-        let mut data = vec![0; *size as usize];
-        reader.read_exact(&mut data[..])?;
+        // Nb. The size is chosen by the remote peer and can be as large as `VarInt::MAX`.
+        // Never allocate it up front: only allocate for the bytes that are actually there.
+        let mut data = Vec::new();
+        (&mut *reader).take(*size).read_to_end(&mut data)?;
 
+        if (data.len() as u64) < *size {
+            return Err(io::Error::from(io::ErrorKind::UnexpectedEof).into());
+        }
         Ok(data)
     }
 }
